@@ -86,8 +86,12 @@ func (i *postingsIterator) Advance(number uint64) (segment.Posting, error) {
 		if err != nil {
 			return nil, err
 		}
-		// close the current term field reader before replacing it with a new one
-		_ = i.Close()
+		// the current term field reader is finished, but i itself lives on with
+		// the state of the new one, so it must not be handed to the recycle pool
+		// here (it is recycled when the caller closes it)
+		if i.snapshot != nil {
+			atomic.AddUint64(&i.snapshot.parent.stats.TotTermSearchersFinished, uint64(1))
+		}
 		*i = *(i2.(*postingsIterator))
 	}
 	segIndex, ldocNum := i.snapshot.segmentIndexAndLocalDocNumFromGlobal(number)
